@@ -552,14 +552,16 @@ func (m *Manager) cleanUp() []peer.ID {
 		if time.Since(p.createdAt) > m.params.PoolValidationTimeout {
 			delete(m.pools, h)
 
+			// the pool may still be in use (a concurrent Validate adds to it): read its list under its lock
+			peerList := p.all()
 			log.Debug("blacklisting datahash with all corresponding peers",
 				"hash", h,
-				"peer_list", p.peersList)
+				"peer_list", peerList)
 			// blacklist hash
 			m.blacklistedHashes.Add(h, struct{}{})
 
 			// blacklist peers
-			for _, peer := range p.peersList {
+			for _, peer := range peerList {
 				addToBlackList[peer] = struct{}{}
 			}
 		}
